@@ -235,6 +235,7 @@ def composed(chk, fs):
                 dev = sd.SCSIDevice(path, readwrite=True, detect_replugged=bool(b["detect"]))
             facade = SCSI(dev, 1)
             rd = None           # the caller's one long-lived read command
+            wr, wbuf = {}, {}   # ... and its long-lived write commands (one per CDB size) with their buffers
             for i, s_ in enumerate(b["steps"]):
                 a = s_["act"]
                 out, data = "ok", 0
@@ -247,6 +248,14 @@ def composed(chk, fs):
                         facade.writesame10(s_["lba"], 0, bytearray([s_["val"]]))
                     elif a == "read":
                         data = facade.read10(s_["lba"], 1).datain[0]
+                    elif a == "rewrite":
+                        wk = ("Write10", "Write12", "Write16")[(i + len(b["steps"])) % 3]
+                        if wk not in wr:
+                            wbuf[wk] = bytearray([0xEE])
+                            wr[wk] = cmds.klass(wk)(getattr(dev.opcodes, "WRITE_" + wk[5:]), 1, 1 - s_["lba"], 1, wbuf[wk])
+                        wbuf[wk][0] = s_["val"]
+                        wr[wk].cdb = wr[wk].build_cdb(opcode=wr[wk].opcode.value, lba=s_["lba"], tl=1)
+                        facade.execute(wr[wk])
                     elif a == "reread":
                         if rd is None:
                             rd = cmds.klass("Read10")(dev.opcodes.READ_10, 1, 1 - s_["lba"], 1)
